@@ -185,6 +185,9 @@ type pktResult struct {
 
 func genReadCase(tp *tape.Tape, op string) *readCase {
 	rc := &readCase{op: op}
+	// payloads above 1 MiB only where the array is (or may be) the whole document
+	nbtgen.Mega = op == "nbt.dynbt" || op == "nbt.any" || op == "nbt.raw" || op == "nbt.slice"
+	defer func() { nbtgen.Mega = false }()
 	network := tp.Bool(1, 2)
 	name := ""
 	if !network && tp.Bool(1, 2) {
